@@ -1176,3 +1176,222 @@ pub fn generate(seed: u64, profile: &GenProfile) -> Schema {
     }
     g.s
 }
+
+// ---------------------------------------------------------------------------
+// hostile naming profile (C14 / C17 only: values are never driven through
+// these corpora, so Rust paths need not be predictable)
+
+const HOSTILE: [&str; 86] = [
+    // Rust strict / reserved / path keywords (that the Thrift grammar does not use itself)
+    "type", "self", "Self", "super", "crate", "async", "gen", "box", "dyn", "fn", "match", "impl",
+    "trait", "move", "await", "yield", "loop", "while", "mod", "pub", "ref", "mut", "static", "use",
+    "where", "as", "break", "continue", "else", "for", "if", "in", "let", "return", "unsafe",
+    "extern", "abstract", "final", "override", "try", "macro", "virtual", "priv", "become", "do",
+    "typeof", "unsized",
+    // collide after case conversion
+    "fooBar", "foo_bar", "FooBar", "FOO_BAR", "ID", "Id", "id", "aB", "a_b", "AB", "Ab", "getURL",
+    "get_url", "GetUrl",
+    // names the emitted code mentions
+    "Vec", "Option", "Box", "Okay", "Error", "Default", "String", "SomeThing", "Nothing", "Result", "Sender",
+    "Synced", "Clone", "Debug", "Bytes", "FastStr", "Message", "Arc",
+    // shapes
+    "_x", "__y", "_1", "x1y2", "UPPER", "lower", "Mixed_Case",
+];
+
+/// Names of prelude items that the emitted code uses UNQUALIFIED (`Some(..)`,
+/// `None`, `+ Send`, ...). An IDL item with such a name shadows them (recorded
+/// as one known finding through a directed document); the random hostile
+/// profile does not draw them.
+pub const PRELUDE_UNQUALIFIED: [&str; 6] = ["Some", "None", "Ok", "Err", "Send", "Sync"];
+
+fn pick_name(rng: &mut Rng, taken: &mut Vec<String>, fallback: &str) -> String {
+    for _ in 0..6 {
+        let n = (*rng.pick(&HOSTILE)).to_string();
+        if !taken.contains(&n) {
+            taken.push(n.clone());
+            return n;
+        }
+    }
+    let mut i = 0;
+    loop {
+        let n = format!("{}{}", fallback, i);
+        if !taken.contains(&n) {
+            taken.push(n.clone());
+            return n;
+        }
+        i += 1;
+    }
+}
+
+/// Rename every declared thing with hostile identifiers. Uniqueness is kept
+/// only in Thrift's own terms (exact spelling per scope); names that collide
+/// after Rust case conversion are intended.
+pub fn apply_hostile_names(s: &mut Schema, seed: u64) {
+    let mut rng = Rng::new(seed ^ 0x4057_11E);
+    // type-level names are unique per file (and file stems stay as they are)
+    let nfiles = s.files.len();
+    let mut taken: Vec<Vec<String>> = vec![vec![]; nfiles];
+    for d in s.defs.iter_mut() {
+        d.name = pick_name(&mut rng, &mut taken[d.file], "Ty");
+        let mut ftaken = vec![];
+        for f in d.fields.iter_mut() {
+            f.name = pick_name(&mut rng, &mut ftaken, "fld");
+        }
+        if let Kind::Enum(ms) = &mut d.kind {
+            let mut mtaken = vec![];
+            for m in ms.iter_mut() {
+                m.0 = pick_name(&mut rng, &mut mtaken, "Mem");
+            }
+        }
+    }
+    for c in s.consts.iter_mut() {
+        c.name = pick_name(&mut rng, &mut taken[c.file], "CONST");
+    }
+    for sv in s.services.iter_mut() {
+        sv.name = pick_name(&mut rng, &mut taken[sv.file], "Svc");
+        let mut mtaken = vec![];
+        for m in sv.methods.iter_mut() {
+            m.name = pick_name(&mut rng, &mut mtaken, "meth");
+            let mut ataken = vec![];
+            for a in m.args.iter_mut() {
+                a.name = pick_name(&mut rng, &mut ataken, "arg");
+            }
+            let mut ttaken = vec![];
+            for a in m.throws.iter_mut() {
+                a.name = pick_name(&mut rng, &mut ttaken, "exc");
+            }
+        }
+    }
+}
+
+impl Schema {
+    /// which grammar productions / side conditions this corpus uses (evidence
+    /// floors of the program-quantified checks)
+    pub fn features(&self) -> Vec<String> {
+        let mut v: Vec<String> = vec![];
+        let mut add = |s: &str| {
+            if !v.iter().any(|x| x == s) {
+                v.push(s.to_string())
+            }
+        };
+        if self.files.len() >= 2 {
+            add("include-2-files");
+        }
+        if self.files.len() >= 3 {
+            add("include-3-files");
+        }
+        if self.files.iter().any(|f| f.namespace.is_some()) {
+            add("namespace-rs");
+        }
+        fn ty_feats(s: &Schema, t: &Ty, pos: &str, add: &mut dyn FnMut(&str), depth: usize) {
+            match t {
+                Ty::List(x) => {
+                    add("list");
+                    if depth >= 2 {
+                        add("container-nesting-3");
+                    }
+                    ty_feats(s, x, "list-elem", add, depth + 1)
+                }
+                Ty::Set(x) => {
+                    add("set");
+                    ty_feats(s, x, "set-elem", add, depth + 1)
+                }
+                Ty::Map(k, v) => {
+                    add("map");
+                    if depth >= 2 {
+                        add("container-nesting-3");
+                    }
+                    ty_feats(s, k, "map-key", add, depth + 1);
+                    ty_feats(s, v, "map-value", add, depth + 1)
+                }
+                Ty::Ref(d) => {
+                    let k = match &s.defs[*d].kind {
+                        Kind::Struct => "struct",
+                        Kind::Exception => "exception",
+                        Kind::Union => "union",
+                        Kind::Enum(_) => "enum",
+                        Kind::Typedef(_) => "typedef",
+                    };
+                    add(&format!("{}-as-{}", k, pos));
+                }
+                Ty::Uuid => add(&format!("uuid-as-{}", pos)),
+                Ty::Double => add(&format!("double-as-{}", pos)),
+                Ty::Bin => add(&format!("binary-as-{}", pos)),
+                Ty::Bool => add(&format!("bool-as-{}", pos)),
+                _ => {}
+            }
+        }
+        for (i, d) in self.defs.iter().enumerate() {
+            match &d.kind {
+                Kind::Struct => add("struct"),
+                Kind::Exception => add("exception"),
+                Kind::Union => add("union"),
+                Kind::Enum(ms) => {
+                    add("enum");
+                    if ms.iter().any(|m| m.1 < 0) {
+                        add("enum-negative-value");
+                    }
+                }
+                Kind::Typedef(t) => {
+                    add("typedef");
+                    ty_feats(self, t, "typedef-target", &mut add, 0);
+                }
+            }
+            if d.fields.is_empty() && !matches!(d.kind, Kind::Enum(_) | Kind::Typedef(_)) {
+                add("empty-struct-like");
+            }
+            for f in &d.fields {
+                match f.req {
+                    Req::Required => add("required"),
+                    Req::Optional => add("optional"),
+                    Req::Default => add("default-requiredness"),
+                }
+                if f.default.is_some() {
+                    add("field-default");
+                }
+                for a in &f.annots {
+                    add(&format!("annotation-{}={}", a.0, a.1));
+                }
+                ty_feats(self, &f.ty, if d.kind == Kind::Union { "union-variant" } else { "field" }, &mut add, 0);
+                if f.ty == Ty::Ref(i) {
+                    add("self-recursion-optional-field");
+                }
+                if let Ty::List(x) = &f.ty {
+                    if **x == Ty::Ref(i) {
+                        add("self-recursion-through-list");
+                    }
+                }
+                if let Ty::Map(_, x) = &f.ty {
+                    if **x == Ty::Ref(i) {
+                        add("self-recursion-through-map-value");
+                    }
+                }
+            }
+        }
+        if !self.consts.is_empty() {
+            add("const");
+        }
+        for sv in &self.services {
+            add("service");
+            for m in &sv.methods {
+                if m.oneway {
+                    add("oneway");
+                }
+                if m.ret.is_none() {
+                    add("void-method");
+                }
+                if !m.throws.is_empty() {
+                    add("throws");
+                }
+                if let Some(t) = &m.ret {
+                    ty_feats(self, t, "method-result", &mut add, 0);
+                }
+                for a in &m.args {
+                    ty_feats(self, &a.ty, "method-argument", &mut add, 0);
+                }
+            }
+        }
+        v.sort();
+        v
+    }
+}
